@@ -92,7 +92,11 @@ var All = map[string]func(*Ctx){
 		c.afterHandlersUnconditional("C07.after-unconditional")
 		c.perInstanceWiring("C07.per-instance")
 		c.cookieReaderTotal("C07.reader-total")
-	}, borrow(C11, "C11.family", "C07.cookie-loaded", func(o Obligation) bool {
+		c.rotatedBeforeAuthenticated("C07.rotated-first")
+	}, borrow(C01, "C01.vgate", "C07.use-gate", func(o Obligation) bool {
+		// a cookie logs in only through a successful UseRememberToken of this request
+		return o.Rule == "C01.vgate" && strings.Contains(o.Func, "ab/remember.")
+	}), borrow(C11, "C11.family", "C07.cookie-loaded", func(o Obligation) bool {
 		// the remember cookie reaches the middleware only if the request's cookie state was loaded
 		return o.Rule == "C11.family" && strings.Contains(o.Func, "LoadClientState") && strings.Contains(o.Key, "ReadState(")
 	})),
